@@ -8,6 +8,7 @@ import (
 // from exactly the length of the partial file.
 func VH_C09_UploadRequest() {
 	e := vNewEnv()
+	e.cc.Account.FileRoot = "/own" // this account has its own file root; the server-wide one is /r
 	e.cc.Account.Access = hotline.AccessBitmap{0xff, 0xff, 0xff, 0xff, 0xff, 0xff, 0xff, 0xff}
 	vAssume(!e.fs.isDir)
 	resume := vBool("resume")
@@ -29,6 +30,8 @@ func VH_C09_UploadRequest() {
 		return
 	}
 	vAssert("upload_granted", len(res) == 1 && !vIsErrReply(res) && len(e.ftm.added) == 1)
+	// the bytes arrive later under what the registered transfer names: the place the existence / partial checks looked at
+	vAssert("transfer_names_the_place_that_was_checked", e.ftm.added[0].FileRoot == e.cc.FileRoot())
 	if resume {
 		var rd []byte
 		for _, fl := range res[0].Fields {
